@@ -41,7 +41,8 @@
 (*                                                                         *)
 (* hist carries the schedule (excluded from the VIEW, so the state graph   *)
 (* stays a DAG over (combo, pc, locks)); a deadlock state prints           *)
-(*   "DEADLOCK {combo, sched, pc, wm, rd}"  once, through the Report step. *)
+(*   "DEADLOCK {combo, sched, pc, wm, rd}"  through the Report step (the   *)
+(* first one each TLC worker meets for a combo).                           *)
 (***************************************************************************)
 EXTENDS Integers, Sequences, FiniteSets, TLC, Json
 
@@ -68,7 +69,8 @@ Unfinished(p) == pc[p] <= Len(Prog(p))
 Cur(p) == Prog(p)[pc[p]]
 Readers(s) == LET Sum[n \in 0..Len(combo)] == IF n = 0 THEN 0 ELSE Sum[n - 1] + rd[s][n] IN Sum[Len(combo)]
 
-Init == /\ \E k \in 1..Len(Combos) : combo = Combos[k]
+Init == /\ TLCSet(1, {})      \* per worker: the combos whose deadlock this worker has already printed
+        /\ \E k \in 1..Len(Combos) : combo = Combos[k]
         /\ pc = [p \in Procs |-> 1]
         /\ ann = [p \in Procs |-> FALSE]
         /\ wm = [s \in Stripes |-> 0]
@@ -131,7 +133,9 @@ Deadlocked == (\E p \in Procs : Unfinished(p)) /\ (\A p \in Procs : ~CanStep(p))
 \* the deadlock state describes itself once: who is stuck where, who owns what, and one schedule leading here
 Report == /\ Deadlocked /\ ~dead
           /\ dead' = TRUE
-          /\ PrintT("DEADLOCK " \o ToJson([combo |-> combo, sched |-> hist, pc |-> pc, ann |-> ann, wm |-> wm, rd |-> rd]))
+          /\ IF combo \in TLCGet(1) THEN TRUE     \* one witness per combo and worker is enough (a broken tree has thousands)
+             ELSE /\ PrintT("DEADLOCK " \o ToJson([combo |-> combo, sched |-> hist, pc |-> pc, ann |-> ann, wm |-> wm, rd |-> rd]))
+                  /\ TLCSet(1, TLCGet(1) \cup {combo})
           /\ UNCHANGED <<combo, pc, ann, wm, rd, hist>>
 
 Next == (~dead /\ \E p \in Procs : RAcq(p) \/ Ann(p) \/ Get(p) \/ Rel(p)) \/ Report
